@@ -238,3 +238,34 @@ Proof.
   - apply String.eqb_eq in H1, H2. subst. apply String.eqb_refl.
   - apply zlist_eqb_eq in H1, H2. subst. apply zlist_eqb_refl.
 Qed.
+
+Lemma oval_eqb_refl a : oval_eqb a a = true.
+Proof. destruct a; simpl; [apply val_eqb_refl|reflexivity]. Qed.
+Lemma oval_eqb_sym a b : oval_eqb a b = true -> oval_eqb b a = true.
+Proof. destruct a, b; simpl; try discriminate; auto using val_eqb_sym. Qed.
+Lemma oval_eqb_trans a b c : oval_eqb a b = true -> oval_eqb b c = true -> oval_eqb a c = true.
+Proof. destruct a, b, c; simpl; try discriminate; eauto using val_eqb_trans. Qed.
+
+Lemma dget_not_in_keys d k : ~ In k (keys d) -> dget d k = None.
+Proof.
+  induction d as [|[k' v] r IH]; simpl; [reflexivity|]. intros H.
+  destruct (String.eqb k k') eqn:E.
+  - apply String.eqb_eq in E. subst. exfalso. apply H. now left.
+  - apply IH. intros C. apply H. now right.
+Qed.
+
+Lemma data_equiv_get a b k : data_equiv a b = true -> oval_eqb (dget a k) (dget b k) = true.
+Proof.
+  unfold data_equiv. intros H.
+  destruct (in_dec string_dec k (keys a ++ keys b)) as [I|N].
+  - rewrite forallb_forall in H. now apply H.
+  - rewrite !dget_not_in_keys; [reflexivity| |]; intros C; apply N; apply in_or_app; auto.
+Qed.
+
+Lemma dget_in_keys d k v : dget d k = Some v -> In k (keys d).
+Proof.
+  induction d as [|[k' v'] r IH]; simpl; [discriminate|].
+  destruct (String.eqb k k') eqn:E.
+  - apply String.eqb_eq in E. subst. now left.
+  - intros H. right. now apply IH.
+Qed.
